@@ -66,16 +66,22 @@ def run (known : Ent → Bool) : W → List (List Item) → W
 
 /-- deviations from the property found in the code, one switch per site -/
 structure Defects where
-  /-- `deletion.rs:91-93`: a reference deletion re-dates and re-signs the source row; only the
-      reference tombstones are marked (none when the reference does not exist) -/
+  /-- `deletion.rs:91-93` (fixed in /repo by 456214b + 9b21e0a): a reference deletion re-dates and re-signs
+      the source row even when no named reference exists; only the reference tombstones are marked -/
   refdelUnmarked : Bool
-  /-- `graph_database.rs:331-339`: the recompute of a mutation stream is requested when the stream is
-      closed, not after the acknowledgements of its mutations -/
+  /-- `graph_database.rs:331-339` (fixed in /repo by e303771): the recompute of a mutation stream is requested
+      when the stream is closed, not after the acknowledgements of its mutations -/
   streamCloseEarly : Bool
 deriving Repr, DecidableEq
 
 def Defects.none : Defects := { refdelUnmarked := false, streamCloseEarly := false }
-def Defects.asImplemented : Defects := { refdelUnmarked := true, streamCloseEarly := true }
+/-- what /repo does now: both deviations were fixed there (456214b + 9b21e0a, e303771); the switches are
+    kept so that the witnesses in `Props/C18.lean` keep documenting the old behaviour and the corpus
+    replays keep detecting a regression -/
+def Defects.asImplemented : Defects := { refdelUnmarked := false, streamCloseEarly := false }
+
+/-- the code before those fixes -/
+def Defects.beforeFixes : Defects := { refdelUnmarked := true, streamCloseEarly := true }
 
 structure Row where
   n : Nat
@@ -312,7 +318,10 @@ def localOp (d : Defects) (tick : Nat) (day : Day) (usedRows : List Nat) (rooms 
                          etombs := s.etombs ++ [t] },
                 [.write [cellOf row] ([cellOf row] ++ fixed), .pass])
         | none =>
-          some ({ s with rows := setRow row s.rows }, [.write [cellOf row] fixed, .pass])
+          -- no named reference exists: the row is left untouched (since /repo 456214b); before that fix it
+          -- was re-dated and re-signed all the same, and nothing was marked
+          if d.refdelUnmarked then some ({ s with rows := setRow row s.rows }, [.write [cellOf row] [], .pass])
+          else some (s, [.write [] [], .pass])
     | _, _ => none
   | .flush _ => some (s, [.pass])
   | _ => none
